@@ -15,6 +15,7 @@ from ..model import Program, AnalysisError, FuncInfo, walk_local, dotted
 from ..report import RuleResult
 from ..astutil import src, site, calls_in, call_name, is_super_call, kwarg, const_value, is_self_attr
 from ..cfg import CFG
+from ..callgraph import self_closure
 
 EXPLANATION = (
     "Argument alignment is a fact about call sites: at every call of the merge helper the number of leading "
@@ -114,8 +115,38 @@ def pred_align(prog: Program) -> RuleResult:
                 f"skips {1 if flag else 0} leading parameter(s) but {why}; a positional argument is bound one position off "
                 f"(a positional variable is not recognised / the body runs on the variable)",
             )
-    if nsites < 2:
-        raise AnalysisError(f"PRED-ALIGN: only {nsites} merge sites found (symbolic_function wrapper and Predicate.__new__ expected)")
+    # every place that turns a call into a symbolic node takes its name -> argument mapping from the helper,
+    # i.e. from the signature of the callable that will be invoked per binding
+    ndispatch = 0
+    for f in prog.functions.values():
+        if not f.module.name.endswith(PREDMOD):
+            continue
+        for c in calls_in(f.node):
+            if not (isinstance(c.func, ast.Name) and c.func.id == "Variable"):
+                continue
+            kw = kwarg(c, "_kwargs_")
+            if kw is None or kwarg(c, "_predicate_type_") is None:
+                continue
+            ndispatch += 1
+            defs = []
+            if isinstance(kw, ast.Name):
+                for x in walk_local(f.node):
+                    if isinstance(x, (ast.Assign, ast.AnnAssign)) and any(isinstance(t, ast.Name) and t.id == kw.id for t in (x.targets if isinstance(x, ast.Assign) else [x.target])):
+                        defs.append(x.value)
+                    if isinstance(x, ast.AugAssign) and isinstance(x.target, ast.Name) and x.target.id == kw.id:
+                        defs.append(x)
+                    if isinstance(x, ast.Call) and isinstance(x.func, ast.Attribute) and isinstance(x.func.value, ast.Name) and x.func.value.id == kw.id and x.func.attr in ("update", "__setitem__", "setdefault", "pop"):
+                        defs.append(x)
+                    if isinstance(x, ast.Subscript) and isinstance(x.ctx, ast.Store) and isinstance(x.value, ast.Name) and x.value.id == kw.id:
+                        defs.append(x)
+            else:
+                defs = [kw]
+            good = len(defs) == 1 and isinstance(defs[0], ast.Call) and isinstance(defs[0].func, (ast.Name, ast.Attribute)) and f.module.resolve(defs[0].func) == merge.qual
+            r.check(good, f"{f.short}#mapping-from-signature", site(f, c), src(kw), "the symbolic node's arguments are the helper's name -> argument mapping",
+                    f"the name -> argument mapping of the symbolic node is built here ({'; '.join(src(d)[:60] for d in defs) or src(kw)}) instead of from the signature of the callable that runs per binding: "
+                    "wherever the two orders differ (keyword-only fields, InitVar, a hand-written __init__) a positional argument is bound to the wrong parameter")
+    if ndispatch < 2:
+        raise AnalysisError(f"PRED-ALIGN: only {ndispatch} symbolic dispatch sites found (symbolic_function wrapper and Predicate.__new__ expected)")
     return r
 
 
@@ -312,6 +343,76 @@ def pred_once(prog: Program) -> RuleResult:
     return r
 
 
+COMPUTED_MARKS = ("_predicate_type_", "_should_be_instantiated_", "_child_vars_", "_kwargs_")
+
+
+def pred_fresh(prog: Program) -> RuleResult:
+    """A call node answers with the value bound under its own id when there is one.  Whoever keeps bindings of one evaluation of
+    a condition and evaluates the condition again for another value of a variable must therefore not keep the call's own result."""
+    r = RuleResult("PRED-FRESH", "bindings carried to the next value of a quantified variable do not contain results of calls", floor=2)
+    var = prog.cls("symbolic.Variable")
+    ev = prog.method(var.qual, "_evaluate__", inherited=False)
+    answers_from_bindings = any(isinstance(t, ast.If) and isinstance(t.test, ast.Compare) and isinstance(t.test.ops[0], ast.In) and "_id_" in src(t.test.left) for t in walk_local(ev.node))
+    r.note(f"Variable._evaluate__ answers from the incoming bindings when its id is bound: {answers_from_bindings}")
+    qc = prog.cls("symbolic.QuantifiedConditional")
+    n = 0
+    for c in [x for x in prog.subclasses(qc.qual, strict=True) if not prog.is_abstract_class(x.qual)]:
+        fs, _ = self_closure(prog, c.qual, prog.lookup(c.qual, "_evaluate__"), True)
+        fs = [f for f in fs if f.cls is not None and prog.is_subclass(c.qual, f.cls.qual) and prog.is_subclass(f.cls.qual, qc.qual)]
+        # does the operator evaluate its condition again inside the loop over the values of the quantified expression,
+        # under bindings kept from an earlier evaluation?
+        reeval = None
+        for f in fs:
+            for lp in [x for x in walk_local(f.node) if isinstance(x, ast.For)]:
+                if "variable" not in src(lp.iter) and "left" not in src(lp.iter):
+                    continue
+                for cc in calls_in(lp):
+                    if call_name(cc) in ("evaluate_condition", "_evaluate__") and cc is not lp.iter and cc.args:
+                        a0 = cc.args[0]
+                        if isinstance(a0, ast.Dict) and sum(1 for k in a0.keys if k is None) >= 2:
+                            reeval = (f, cc)
+        if reeval is None:
+            continue
+        n += 1
+        f, cc = reeval
+        if not answers_from_bindings:
+            r.ok(f"{c.name}#carried-bindings", site(f, cc), src(cc), "call nodes do not answer from bindings")
+            continue
+        # the kept bindings are projections of condition results: {k: v for k, v in <result>.bindings.items() if k in self.<ids>}
+        projs = []
+        for g in fs:
+            for dc in [x for x in walk_local(g.node) if isinstance(x, ast.DictComp)]:
+                gen = dc.generators[0]
+                if src(gen.iter).endswith(".bindings.items()"):
+                    for cond in gen.ifs:
+                        if isinstance(cond, ast.Compare) and isinstance(cond.ops[0], ast.In) and is_self_attr(cond.comparators[0]):
+                            projs.append((g, dc, cond.comparators[0].attr))
+        r.check(bool(projs), f"{c.name}#carried-bindings-projected", site(f, cc), src(cc), "kept bindings are projected on a fixed set of variable ids",
+                "the bindings of a condition result are carried to the next value of the quantified expression as they are: every call and attribute node of the condition "
+                "then answers with its previous result")
+        for g, dc, attr in projs:
+            p = prog.lookup(c.qual, attr)
+            if p is None:
+                raise AnalysisError(f"PRED-FRESH: {c.name}.{attr} not found")
+            comps = [x for x in walk_local(p.node) if isinstance(x, (ast.ListComp, ast.SetComp, ast.GeneratorExp))]
+            loops = [x for x in walk_local(p.node) if isinstance(x, ast.For)]
+            ok = False
+            for x in comps:
+                for cond in x.generators[0].ifs:
+                    if isinstance(cond, ast.UnaryOp) and isinstance(cond.op, ast.Not) and any(m in src(cond.operand) for m in COMPUTED_MARKS):
+                        ok = True
+            for lp in loops:
+                for t in [y for y in ast.walk(lp) if isinstance(y, ast.If)]:
+                    if any(m in src(t.test) for m in COMPUTED_MARKS):
+                        ok = True
+            r.check(ok, f"{c.name}.{attr}#free-variables-only", site(p), src(comps[0])[:100] if comps else "", "variables that are computed from their arguments (predicates, symbolic functions) are left out",
+                    f"the ids kept from one evaluation of the condition to the next include the condition's call nodes: for_all(y, p(x, y)) evaluates p for the first y only and answers "
+                    f"every further y with that result (Variable._evaluate__ returns the value bound under its id)")
+    if n < 1:
+        raise AnalysisError("PRED-FRESH: no quantifier re-evaluates its condition under kept bindings (ForAll expected)")
+    return r
+
+
 def pred_names(prog: Program) -> RuleResult:
     """Parameter names are a function of the callable itself: a cache may be keyed by the callable (lru_cache, dict[function])
     but not by something derived from it (name, qualname, module) - distinct callables can share those."""
@@ -348,4 +449,4 @@ def run(prog: Program, tier: str) -> List[RuleResult]:
     from .c01 import ep_operand
 
     # the truth a symbolic call contributes: flagged from its result only in condition position (shared with C01)
-    return [pred_align(prog), pred_dispatch(prog), pred_once(prog), pred_names(prog), ep_operand(prog)]
+    return [pred_align(prog), pred_dispatch(prog), pred_once(prog), pred_names(prog), pred_fresh(prog), ep_operand(prog)]
